@@ -2,6 +2,7 @@ package transfer
 
 import (
 	"context"
+	"encoding/binary"
 	"errors"
 	"hash/crc32"
 	"io"
@@ -25,6 +26,7 @@ type vPipe struct {
 	note   chan struct{} // capacity 1: a wake-up before the reader waits is not lost (one reader per direction)
 	link   *vLink
 	writes int
+	log    []byte // everything ever written into this direction (the reader consumes buf)
 }
 
 // vLink: what both ends of a connection share. A connection can be scripted to be lost: at the
@@ -172,6 +174,7 @@ func (s *vPipeStream) Write(b []byte) (int, error) {
 	}
 	s.w.mu.Lock()
 	s.w.buf = append(s.w.buf, b...)
+	s.w.log = append(s.w.log, b...)
 	s.w.mu.Unlock()
 	s.w.wake()
 	return len(b), nil
@@ -299,7 +302,13 @@ func H_C04_endtoend_tail() {
 var vC04Streams, vC04Tail = 1, 0
 
 // H_C06_repair: the same second run, where the highest chunk the metadata marks is damaged on disk.
-func H_C06_repair()      { vPaced(func() { vC04EndToEnd([]int{5}, true) }) }
+func H_C06_repair() {
+	vPaced(func() {
+		vC04Tail = vChoice("verifyTail", 2) // 0, or 1 as the application configures it
+		vC04EndToEnd([]int{5}, true)
+		vC04Tail = 0
+	})
+}
 func H_C06_repair_deep() { vPaced(func() { vC04EndToEnd([]int{5, 8, 9}, true) }) }
 
 func vC04EndToEnd(sizes []int, tornLastChunk bool) {
@@ -366,6 +375,22 @@ func vC04EndToEnd(sizes []int, tornLastChunk bool) {
 	<-done
 	vAssert(recvErr == nil, "the resumed transfer: the receiver reports success")
 	vAssert(sendErr == nil, "the resumed transfer: the sender reports success")
+	if damaged {
+		// whatever happens to it on the receiving side: the sender must have noticed the mismatch and sent
+		// the damaged chunk again (data pipes are those after the control stream's two)
+		resent := false
+		for _, p := range a.link.pipes[2:] {
+			for pos := 0; pos+dataChunkHeaderLen <= len(p.log); {
+				idx := int(binary.BigEndian.Uint32(p.log[pos+8 : pos+12]))
+				ln := int(binary.BigEndian.Uint32(p.log[pos+12 : pos+16]))
+				if idx == highest {
+					resent = true
+				}
+				pos += dataChunkHeaderLen + ln
+			}
+		}
+		vAssert(resent, "a damaged last chunk is detected by its hash and sent again")
+	}
 	got, rerr := os.ReadFile(out + "/f")
 	vAssert(rerr == nil && len(got) == size, "the resumed file has its length")
 	vAssert(vBytesEq(got, src), "after the resumed transfer the file equals the source")
